@@ -127,3 +127,48 @@ Proof.
   rewrite (u8_id (lo ret)), (u8_id (hi ret)), Epc, Esp in E by (apply is8_u8).
   subst r; cbv_struct; repeat split.
 Qed.
+
+(* ---- mode 2: the handler address is the word stored at I*256 + (vector with bit 0 cleared); handler EI ; RETI ---- *)
+Theorem im2_round_trip u cpu v dat : WF cpu -> g_Memory cpu = UserMem ->
+  g_Interrupt cpu = Some (mk_Interrupt 1 (v :: dat)) -> g_IFF1 cpu = true -> g_IM cpu = 2 ->
+  let sp2 := u16 (g_SP cpu - 2) in let sp1 := u16 (sp2 + 1) in
+  let t := mk16 (g_IR_Hi cpu) (Z.land v 254) in
+  let h := mk16 (u8 (ram (g_W cpu) (u16 (t + 1)))) (u8 (ram (g_W cpu) t)) in
+  sp2 <> t -> sp2 <> u16 (t + 1) -> sp1 <> t -> sp1 <> u16 (t + 1) ->
+  u8 (ram (g_W cpu) h) = 251 -> u8 (ram (g_W cpu) (u16 (h + 1))) = 237 -> u8 (ram (g_W cpu) (u16 (u16 (h + 1) + 1))) = 77 ->
+  sp2 <> h -> sp2 <> u16 (h + 1) -> sp2 <> u16 (u16 (h + 1) + 1) -> sp1 <> h -> sp1 <> u16 (h + 1) -> sp1 <> u16 (u16 (h + 1) + 1) ->
+  let cpu' := spec_iter u 3 cpu in
+  g_GPR cpu' = g_GPR cpu /\ g_Alternate cpu' = g_Alternate cpu /\ g_IX cpu' = g_IX cpu /\ g_IY cpu' = g_IY cpu /\
+  g_SP cpu' = g_SP cpu /\ g_PC cpu' = g_PC cpu /\ g_IFF1 cpu' = true /\ g_IFF2 cpu' = true /\
+  g_IM cpu' = g_IM cpu /\ g_IR_Hi cpu' = g_IR_Hi cpu /\ g_IR_Lo cpu' = r_tick (r_tick (r_tick (g_IR_Lo cpu))) /\
+  g_Interrupt cpu' = None /\
+  ram (g_W cpu') = upd (upd (ram (g_W cpu)) sp2 (lo (g_PC cpu))) sp1 (hi (g_PC cpu)).
+Proof.
+  intros Hwf Hm Hi Hf Him sp2 sp1 t h T1 T2 T3 T4 H0 H1 H2 N1 N2 N3 N4 N5 N6 cpu'. subst sp2 sp1 t h.
+  remember cpu' as r eqn:E. subst cpu'. open_cpu cpu.
+  cbv_struct_in Hm. cbv_struct_in Hi. cbv_struct_in Hf. cbv_struct_in Him. cbv_struct_in H0. cbv_struct_in H1. cbv_struct_in H2.
+  cbv_struct_in T1. cbv_struct_in T2. cbv_struct_in T3. cbv_struct_in T4.
+  cbv_struct_in N1. cbv_struct_in N2. cbv_struct_in N3. cbv_struct_in N4. cbv_struct_in N5. cbv_struct_in N6. wf_open Hwf. subst mem irq iff1 im.
+  set (t := mk16 ri_ (Z.land v 254)) in *.
+  set (h0 := mk16 (u8 (ram w (u16 (t + 1)))) (u8 (ram w t))) in *.
+  cbn [spec_iter] in E. unfold spec_step at 3 in E. cbv_struct_in E. unfold try_interrupt in E. cbv_struct_in E.
+  change (1 =? NMI_type) with false in E. cbv iota in E. change (negb true) with false in E. cbv iota in E.
+  cbv beta iota zeta delta [accept_im2 disable_both push16_lowfirst wr16 rd16 rd wr mem_get mem_set wget wset w_log inc16] in E. cbv_struct_in E.
+  fold t in E. repeat (rewrite upd_other in E by congruence). fold h0 in E.
+  unfold spec_step at 2 in E. cbv_struct_in E. unfold step_instr in E.
+  cbv beta iota zeta delta [fetch_m1 fetch8 rd mem_get wget w_log inc16] in E. cbv_struct_in E.
+  repeat (rewrite upd_other in E by congruence). rewrite H0, dm_ei in E. cbv beta iota zeta delta [exec] in E. cbv_struct_in E.
+  unfold spec_step in E. cbv_struct_in E. unfold step_instr in E.
+  cbv beta iota zeta delta [fetch_m1 fetch8 rd mem_get wget w_log inc16] in E. cbv_struct_in E.
+  repeat (rewrite upd_other in E by congruence). rewrite H1, dm_ed in E. cbv_struct_in E.
+  repeat (rewrite upd_other in E by congruence). rewrite H2, de_reti in E.
+  pose proof (u16_succ_ne (sp - 2)) as Nsp.
+  assert (Esp : u16 (u16 (sp - 2) + 2) = sp).
+  { rewrite u16_add_u16_l. replace (sp - 2 + 2) with sp by lia. apply u16_id. assumption. }
+  assert (Epc : mk16 (hi pc) (lo pc) = pc) by (apply mk16_hi_lo; assumption).
+  destruct ri;
+  cbv beta iota zeta delta [exec pop16_plus2 rd16 rd mem_get wget w_log inc16 reti_Handle log_ev] in E; cbv_struct_in E;
+  rewrite upd_same in E; rewrite (upd_other _ _ _ (u16 (sp - 2))) in E by congruence; rewrite upd_same in E;
+  rewrite (u8_id (lo pc)), (u8_id (hi pc)), Epc, Esp in E by (apply is8_u8);
+  subst r; cbv_struct; repeat split.
+Qed.
